@@ -48,6 +48,11 @@ func NewRun(id, tier string) *Run {
 	if t := os.Getenv("VERIF_TIER"); t == "quick" || t == "thorough" {
 		tier = t
 	}
+	if old, _ := filepath.Glob(filepath.Join(Verif, "out", "replays", id+"-*.json")); len(old) > 0 {
+		for _, f := range old {
+			os.Remove(f)
+		}
+	}
 	dir := filepath.Join(Verif, "out", "run", fmt.Sprintf("%s-%d", id, os.Getpid()))
 	os.RemoveAll(dir)
 	if err := os.MkdirAll(dir, 0o755); err != nil {
